@@ -23,7 +23,7 @@ class NativeBounded:
             return out
         out["bounded"] = {"function": self.what, "stand_in": f"{self.module}.{self.func}", "bound": nat.get("bound"),
                           "cases": nat.get("cases"), "nontrivial": nat.get("nontrivial"), "samples": nat.get("samples"),
-                          "failures": len(nat.get("failures", [])),
+                          "failures": len(nat.get("failures", [])), "known_instances": nat.get("known_instances"),
                           "secs": round(time.time() - t0, 2), "label": "bounded (not counted as proved)"}
         for i, f in enumerate(nat.get("failures", [])[:3]):
             out["results"].append({"oid": f"bounded:{self.func}#{i}", "kind": "bounded", "status": "refuted", "solver": "native",
